@@ -56,7 +56,7 @@ CLAIMED = {
     note='dim<=2 quick / <=3 thorough, <=4 consecutive batches; reals for x+tol and the quotient; evaluate_scalar variants outside',
     ref='DESIGN.md section 5 C14'),
  'C15': dict(
-    text='Symbolic execution of every single-objective benchmark on an arbitrary point of its box: totality (no exception, one real cost) for all points; the bound clause "no point beats the documented optimum by more than 1e-3" is proved by z3 with sound lemma instances for Rosenbrock, Ackley, Sphere, Schwefel (Taylor enclosure, per-coordinate chaining), ModifiedEasom, EqualityConstr, Griewank, Perm, Rastrigin, SixHump, Zakharov, XinSheYang 1-3, Booth, Alpine; the optimum-value clause (no quantifier) is evaluated on the real code with Python and numpy floats. For Michalewicz, GramacyLee, Schubert and the Synthetic Gaussians the bound clause is reported undecided (only a refutation attempt is made).',
+    text='Symbolic execution of every single-objective benchmark on an arbitrary point of its box: totality (no exception, one real cost) for all points; the bound clause "no point beats the documented optimum by more than 1e-3" is proved by z3 with sound lemma instances for Rosenbrock, Ackley, Sphere, Schwefel (Taylor enclosure, per-coordinate chaining), ModifiedEasom, EqualityConstr, Griewank, Perm, Rastrigin, SixHump, Zakharov, XinSheYang 1-3, Booth, Alpine, and by solver-driven adaptive branch and bound (per cell: Taylor / chord / tangent enclosures of every sin / exp application around the cell centre, guards discharged by the solver, UF-free QF_NRA refutation query) for GramacyLee, Synthetic1D and Synthetic2D; the optimum-value clause (no quantifier) is evaluated on the real code with Python and numpy floats. For Michalewicz, Schubert and Synthetic5D/10D the bound clause is reported undecided (only a refutation attempt is made).',
     note='dimensions 1-3 quick / up to 5 thorough; floats as reals; transcendental functions as uninterpreted functions + true lemma instances; undecided clauses listed in the evidence',
     ref='DESIGN.md section 5 C15'),
  'C16': dict(
